@@ -66,6 +66,7 @@ var interpretablePrefixes = []string{
 	"(*sync.Map).CompareAndSwap",
 	"(reflect.Kind).String",
 	"(net/http.Header).", "net/http.CanonicalHeaderKey", "net/http.StatusText",
+	"(encoding/json.Delim).String", "(encoding/json.Number).",
 	"(*github.com/golang-jwt/jwt/v4.SigningMethodRSA).Alg", "(*github.com/golang-jwt/jwt/v4.SigningMethodHMAC).Alg",
 	"(*github.com/golang-jwt/jwt/v4.RegisteredClaims).Verify", "(github.com/golang-jwt/jwt/v4.RegisteredClaims).Verify",
 	"github.com/golang-jwt/jwt/v4.verifyAud", "github.com/golang-jwt/jwt/v4.verifyIss",
